@@ -154,6 +154,22 @@ theorem no_regression (c c' : Cache) (n : Entry) (ok : Bool) (hwf : n.r.wf)
 
 example : (⟨⟨2, [103], some [116], 2, 0⟩, true, false, 1, [1]⟩ : Entry).r.wf := by simp [Region.wf]; decide
 
+/-! ## grouping -/
+
+/-- GroupKeysByRegion (nil filter): every key got a location that contains it and sits in the group of that
+    location's VerID; the groups have distinct VerIDs and together hold exactly as many keys as were given
+    (so, for distinct keys, each key is in exactly one group). -/
+theorem grouping_partition (c c' : Cache) (pd : PD) (keys : List Bytes) (g : List (VerID × List Bytes))
+    (locs : List Region) (h : groupKeysByRegion c pd keys = (c', .ok (g, locs))) :
+    (∀ k ∈ keys, ∃ l ∈ locs, l.contains k = true ∧ ∃ ks, (l.verID, ks) ∈ g ∧ k ∈ ks) ∧
+    (g.map (·.2.length)).sum = keys.length ∧ (g.map (·.1)).Nodup := by
+  unfold groupKeysByRegion at h
+  have := groupKeysLoop_spec (done := []) h (by intro k hk; cases hk) (by simp)
+  refine ⟨?_, by simpa [groupTotal] using this.2.1, this.2.2⟩
+  intro k hk
+  obtain ⟨l, hl, hc, hg⟩ := this.1 k (by simpa using hk)
+  exact ⟨l, by simpa using hl, hc, hg⟩
+
 /-- the index stays strictly sorted by start key (unique start keys) under inserts -/
 theorem index_sorted (c c' : Cache) (n : Entry) (ok : Bool) (h : insertRegionToCache c n = (c', ok))
     (hs : Sorted c.sorted) : Sorted c'.sorted :=
